@@ -293,7 +293,7 @@ impl Tree {
     pub fn get_root(&self) -> Result<NodeId, TreeError> {
         self.nodes
             .iter()
-            .filter(|&node| node.parent.is_none())
+            .filter(|&node| !node.deleted && node.parent.is_none())
             .map(|node| node.id)
             .next()
             .ok_or(TreeError::RootNotFound)
